@@ -487,6 +487,9 @@ pub struct Ctx {
     pub extra: BTreeMap<String, Value>,
     pub sub_stats: BTreeMap<String, Value>,
     pub in_reproducers: bool,
+    /// counts taken over from parts written by other binaries of the same check (see `merge_part`)
+    pub part_nontrivial: u64,
+    pub part_violations: u64,
 }
 
 pub fn env_seed() -> u64 {
@@ -521,7 +524,69 @@ impl Ctx {
             extra: BTreeMap::new(),
             sub_stats: BTreeMap::new(),
             in_reproducers: false,
+            part_nontrivial: 0,
+            part_violations: 0,
         }
+    }
+
+    /// Directory where binaries that decide only a part of a property leave their evidence.
+    pub fn parts_dir() -> PathBuf {
+        Path::new(VERIF_ROOT).join("evidence").join("parts")
+    }
+
+    /// Redirect this context's evidence to the parts directory (for a binary that is not the last one of a check).
+    pub fn write_as_part() {
+        let d = Self::parts_dir();
+        let _ = std::fs::create_dir_all(&d);
+        // SAFETY: called at start-up, before any thread is spawned
+        unsafe { std::env::set_var("VERIF_EVIDENCE_DIR", &d) };
+    }
+
+    /// Merge the evidence another binary wrote for the same property and tier in this run (the driver removes stale
+    /// part files first). A missing or mismatching part makes the run inconclusive: the property was only partly explored.
+    pub fn merge_part(&mut self, name: &str) {
+        let f = Self::parts_dir().join(format!("{}.json", self.property));
+        let v: Option<Value> = std::fs::read_to_string(&f).ok().and_then(|s| serde_json::from_str(&s).ok());
+        let Some(v) = v else {
+            self.inconclusive.push(format!("part '{name}' left no evidence ({})", f.display()));
+            self.extra.insert("hard_inconclusive".into(), json!(format!("part {name} missing")));
+            return;
+        };
+        if v["tier"].as_str() != Some(self.tier.as_str()) || v["seed"].as_i64() != Some(self.seed as i64) {
+            self.inconclusive.push(format!("part '{name}' is from another run (tier/seed differ)"));
+            self.extra.insert("hard_inconclusive".into(), json!(format!("part {name} stale")));
+            return;
+        }
+        let cov = &v["coverage"];
+        self.evaluations += cov["evaluations"].as_u64().unwrap_or(0);
+        self.part_nontrivial += cov["distinct_nontrivial"].as_u64().unwrap_or(0);
+        self.part_violations += v["violations"].as_u64().unwrap_or(0);
+        if let Some(cl) = cov["classes"].as_object() {
+            for (k, n) in cl {
+                *self.classes.entry(format!("{name}:{k}")).or_insert(0) += n.as_u64().unwrap_or(0);
+            }
+        }
+        if let Some(sm) = cov["samples"].as_array() {
+            for s in sm.iter().take(3) {
+                self.samples.push(json!({"part": name, "sample": s}));
+            }
+        }
+        if let Some(a) = v["assumptions"].as_array() {
+            for x in a {
+                if let Some(x) = x.as_str() {
+                    self.assumptions.push(format!("[{name}] {x}"));
+                }
+            }
+        }
+        if cov["inconclusive_cases"].as_u64().unwrap_or(0) > 0 {
+            *self.classes.entry(format!("{name}:inconclusive")).or_insert(0) += cov["inconclusive_cases"].as_u64().unwrap_or(0);
+        }
+        let mut part = cov.clone();
+        if let Some(o) = part.as_object_mut() {
+            o.remove("samples");
+            o.insert("wall_s".into(), v["wall_s"].clone());
+        }
+        self.extra.insert(format!("part_{name}"), part);
     }
 
     pub fn thorough(&self) -> bool {
@@ -946,7 +1011,7 @@ impl Ctx {
         let hard_inconclusive = self.extra.contains_key("empty_required_class") || self.extra.contains_key("hard_inconclusive");
         let mut coverage = json!({
             "evaluations": self.evaluations,
-            "distinct_nontrivial": self.nontrivial.len(),
+            "distinct_nontrivial": self.nontrivial.len() as u64 + self.part_nontrivial,
             "rule": self.rule,
             "samples": self.samples,
             "classes": self.classes,
@@ -968,7 +1033,7 @@ impl Ctx {
             "coverage": coverage,
             "assumptions": self.assumptions,
             "wall_s": wall,
-            "violations": self.violations.len(),
+            "violations": self.violations.len() as u64 + self.part_violations,
         });
         let dir = std::env::var("VERIF_EVIDENCE_DIR").map(PathBuf::from).unwrap_or_else(|_| Path::new(VERIF_ROOT).join("evidence"));
         let _ = std::fs::create_dir_all(&dir);
@@ -982,8 +1047,8 @@ impl Ctx {
             self.tier,
             self.seed,
             self.evaluations,
-            self.nontrivial.len(),
-            self.violations.len(),
+            self.nontrivial.len() as u64 + self.part_nontrivial,
+            self.violations.len() as u64 + self.part_violations,
             self.inconclusive.len(),
             wall
         );
